@@ -221,14 +221,15 @@ RejectLaws == Stepped =>
     /\ (op.op = "add" /\ \E k \in DOMAIN op.add : op.add[k].name \in FONameSet(prev)) => E0.err = "rejected"
     /\ (op.op = "combine" /\ \E k \in DOMAIN op.others : op.others[k].id = "E") => E0.err = "rejected"
 
-\* SIZE INDEPENDENCE (what lets wide tables be judged like small ones): cut the field sequence of the input anywhere;
+\* SIZE INDEPENDENCE (what lets wide tables be judged like small ones): cut the field sequence of the input anywhere
+\* (tables of more than 10 fields: after the 1st, the 8th, the middle and the last but one field);
 \* extraction and removal of the whole are the concatenation of those of the two blocks, a reordering puts the named
 \* fields first and then the unnamed fields of the first block followed by those of the second, a split hands out the
 \* views of the named fields whichever block they are in
 BlockLaw == (Stepped /\ Last.op \in {"extract", "remove", "reorder"}) =>
     LET op == [Last EXCEPT !.strict = FALSE]  a == prev  E0 == FOExpected(a, op) IN
     (E0.err = "none" /\ ~FOUnconstrained(a, op)) =>
-       \A k \in 0..Len(a.fields) :
+       \A k \in (IF Len(a.fields) <= 10 THEN 0..Len(a.fields) ELSE {1, 8, Len(a.fields) \div 2, Len(a.fields) - 1}) :
           LET L == FOArr(a.shape, SubSeq(a.fields, 1, k))
               R == FOArr(a.shape, SubSeq(a.fields, k + 1, Len(a.fields)))
               res(x) == IF x.fields = <<>> THEN <<>>
